@@ -264,3 +264,99 @@ Proof.
   { rewrite Eo, Ew. cbn. now apply TInv_init. }
   exists h, s', obs, hot'. split; [exact Hh|]. split; [exact Hr|]. split; [exact S'|]. now apply TInv_tree_eq.
 Qed.
+
+(* ================================================================== blocks: directory move-outs back to back (C02) *)
+Record PSx2 (P : pcfg) (s : pstate) (hot : option bytes) : Prop := {
+  px2_sync : GS2 (pc_reader P) (p_world s) (p_k s) (p_r s) hot;
+  px2_idle : buffer_idle (p_buf s);
+  px2_alive : p_stopped s = false;
+  px2_tbl : forall id, In id (map fst (p_tbl s)) -> (id < p_next s)%N
+}.
+
+Lemma PSx_PSx2 P s hot : PSx P s hot -> PSx2 P s hot.
+Proof. intros [G A B D]. constructor; try assumption. now apply GS_GS2. Qed.
+
+Theorem block_x2 P s hot o w' : let C := pc_reader P in
+  c_faults C = [] -> c_fix_moveout C = true -> c_mask C = WATCHDOG_ALL -> pc_filter P = None ->
+  PSx2 P s hot -> step_ok2 C (p_world s) hot o -> apply_op (p_world s) o = Some w' ->
+  exists nit s' obs raws, prun P s (tie_history P s o nit) [] = Done (s', obs) /\
+    PSx2 P s' (is_dir_out C (p_world s) o) /\ p_world s' = w' /\
+    p_out s' = p_out s ++ delivered C (pc_full P) w' raws /\
+    read_batch C (w_fs w') (p_r s, drainq (kernel_op (p_k s) (w_fs (p_world s)) o), [])
+               (k_queue (kernel_op (p_k s) (w_fs (p_world s)) o)) = Done (p_r s', p_k s', raws).
+Proof.
+  intros C Hf Hmo Hm HF [G Hidle Hal Htbl] Hs Ha.
+  destruct (gs2_step C Hf Hmo (p_world s) (p_k s) (p_r s) hot o w' Hm G Hs Ha) as (r' & k' & raws & Hrd & G' & Hsafe).
+  assert (Hrd' : read_batch (pc_reader P) (w_fs w') (p_r s, kdrained (kernel_op (p_k s) (w_fs (p_world s)) o), [])
+                   (k_queue (kernel_op (p_k s) (w_fs (p_world s)) o)) = Done (r', k', raws)) by exact Hrd.
+  destruct (tie_strong P s o w' r' k' raws HF Hidle Hal Htbl Ha Hrd' Hsafe)
+    as (nit & s' & obs & Hrun & Hout & E1 & E2 & E3 & Hidle' & Hal' & Htbl').
+  exists nit, s', obs, raws. split; [exact Hrun|]. split; [|split; [exact E1|split; [exact Hout|]]].
+  - constructor; try assumption. now rewrite E1, E2, E3.
+  - rewrite E2, E3. exact Hrd.
+Qed.
+
+Theorem blocks_cover_x2 P : let C := pc_reader P in
+  c_faults C = [] -> c_fix_moveout C = true -> c_mask C = WATCHDOG_ALL -> pc_filter P = None ->
+  forall ops s hot, PSx2 P s hot -> ops_x2 C (p_world s) hot ops ->
+  exists h s' obs hot', block_hist_x P s ops h /\ prun P s h [] = Done (s', obs) /\ PSx2 P s' hot' /\
+    Cover C (w_fs (p_world s')) (p_k s') (p_r s').
+Proof.
+  intros C Hf Hmo Hm HF. induction ops as [|o ops IH]; intros s hot S Hc; cbn [ops_x2] in Hc.
+  - exists [], s, [], hot. split; [constructor|]. split; [reflexivity|]. split; [exact S|].
+    eapply GS2_cover. exact (px2_sync _ _ _ S).
+  - destruct (apply_op (p_world s) o) as [w'|] eqn:Ea.
+    + destruct Hc as [Hs Hc].
+      destruct (block_x2 P s hot o w' Hf Hmo Hm HF S Hs Ea) as (nit & s1 & obs1 & raws & Hrun & S1 & E1 & _).
+      rewrite <- E1 in Hc. destruct (IH s1 _ S1 Hc) as (h & s' & obs & hot' & Hh & Hr & S' & Cv).
+      exists (tie_history P s o nit ++ h), s', (obs1 ++ obs), hot'. split; [eapply bx_step; eassumption|].
+      split; [|split; assumption]. rewrite prun_app, Hrun, prun_acc, Hr. reflexivity.
+    + destruct (IH s hot S Hc) as (h & s' & obs & hot' & Hh & Hr & S' & Cv).
+      exists (AOp o :: h), s', (OSkip :: obs), hot'. split; [now apply bx_skip|]. split; [|split; assumption].
+      cbn [prun pstep]. rewrite Ea. rewrite prun_acc, Hr. reflexivity.
+Qed.
+
+Lemma pinit_psx2 P w s0 : c_faults (pc_reader P) = [] -> c_fix_moveout (pc_reader P) = true -> wf_fs w ->
+  fisdir (c_root (pc_reader P)) (w_fs w) = true -> pinit P w = Some s0 -> PSx2 P s0 None /\ p_world s0 = w /\ p_out s0 = [].
+Proof.
+  intros Hf Hmo W Hroot Hi. destruct (pinit_psx P w s0 Hf Hmo W Hroot Hi) as (S & Ew & Eo). split; [now apply PSx_PSx2 | now split].
+Qed.
+
+Theorem blocks_replay_x2 P t0 : let C := pc_reader P in
+  c_faults C = [] -> c_fix_moveout C = true -> c_mask C = WATCHDOG_ALL -> pc_filter P = None ->
+  forall ops s hot, PSx2 P s hot -> ops_x12 C (p_world s) hot ops ->
+  TInv (c_recursive C) (c_root C) (replay (c_recursive C) (c_root C) t0 (p_out s)) (p_world s) ->
+  exists h s' obs hot', block_hist_x P s ops h /\ prun P s h [] = Done (s', obs) /\ PSx2 P s' hot' /\
+    TInv (c_recursive C) (c_root C) (replay (c_recursive C) (c_root C) t0 (p_out s')) (p_world s').
+Proof.
+  intros C Hf Hmo Hm HF. induction ops as [|o ops IH]; intros s hot S Hc T; cbn [ops_x12] in Hc.
+  - exists [], s, [], hot. split; [constructor|]. split; [reflexivity|]. split; assumption.
+  - destruct (apply_op (p_world s) o) as [w'|] eqn:Ea.
+    + destruct Hc as [Hs Hc].
+      destruct (block_x2 P s hot o w' Hf Hmo Hm HF S (step_ok12_ok C _ _ _ Hs) Ea) as (nit & s1 & obs1 & raws & Hrun & S1 & E1 & Hout & Hrd).
+      destruct (gs2_replay_step C (pc_full P) Hf Hmo Hm (p_world s) (p_k s) (p_r s) hot o w' _ (px2_sync _ _ _ S) Hs Ea T)
+        as (r' & k' & raws' & Hrd' & _ & _ & T').
+      fold C in Hrd. rewrite Hrd in Hrd'. injection Hrd' as _ _ <-.
+      assert (T1 : TInv (c_recursive C) (c_root C) (replay (c_recursive C) (c_root C) t0 (p_out s1)) (p_world s1)).
+      { rewrite E1, Hout. unfold replay in *. now rewrite fold_left_app. }
+      rewrite <- E1 in Hc. destruct (IH s1 _ S1 Hc T1) as (h & s' & obs & hot' & Hh & Hr & S' & T2).
+      exists (tie_history P s o nit ++ h), s', (obs1 ++ obs), hot'. split; [eapply bx_step; eassumption|].
+      split; [|split; assumption]. rewrite prun_app, Hrun, prun_acc, Hr. reflexivity.
+    + destruct (IH s hot S Hc T) as (h & s' & obs & hot' & Hh & Hr & S' & T').
+      exists (AOp o :: h), s', (OSkip :: obs), hot'. split; [now apply bx_skip|]. split; [|split; assumption].
+      cbn [prun pstep]. rewrite Ea. rewrite prun_acc, Hr. reflexivity.
+Qed.
+
+Theorem replay_pipeline_from_start_x2 P ops w s0 : let C := pc_reader P in
+  c_faults C = [] -> c_fix_moveout C = true -> c_mask C = WATCHDOG_ALL -> pc_filter P = None -> wf_fs w ->
+  fisdir (c_root C) (w_fs w) = true -> pinit P w = Some s0 -> ops_x12 C w None ops ->
+  exists h s' obs hot', block_hist_x P s0 ops h /\ prun P s0 h [] = Done (s', obs) /\ PSx2 P s' hot' /\
+    forall x, alookup beqb x (replay (c_recursive C) (c_root C) (tree_of (c_recursive C) (c_root C) w) (p_out s'))
+            = alookup beqb x (tree_of (c_recursive C) (c_root C) (p_world s')).
+Proof.
+  intros C Hf Hmo Hm HF W Hroot Hi Hc. destruct (pinit_psx2 P w s0 Hf Hmo W Hroot Hi) as (S0 & Ew & Eo).
+  rewrite <- Ew in Hc.
+  destruct (blocks_replay_x2 P (tree_of (c_recursive C) (c_root C) w) Hf Hmo Hm HF ops s0 None S0 Hc) as (h & s' & obs & hot' & Hh & Hr & S' & T).
+  { rewrite Eo, Ew. cbn. now apply TInv_init. }
+  exists h, s', obs, hot'. split; [exact Hh|]. split; [exact Hr|]. split; [exact S'|]. now apply TInv_tree_eq.
+Qed.
